@@ -25,7 +25,22 @@ struct SegClass {
         draw_env(p, env, large, g.tsan);
         p.set("mode", cfg.chance(large ? 950 : 700) ? "par" : "seq");
         sim::Env e = env_from_plan(p);
-        std::string sig = gen_keys_into<K>(p, n, std::max<size_t>(eps, 1), chunks_for(e, n), cfg, work);
+        std::string sig;
+        if (scale_slot(g) && sizeof(K) == 8 && std::is_integral_v<K> && g.prop != "C20") {
+            // scale slot of the builder: hulls beyond the 2^16 entries it reserves (smooth convex sequences, large epsilon)
+            static const size_t big_eps[] = {64, 128, 1024, 1024, 256};
+            eps = big_eps[cfg.below(5)];
+            p.set("rt_eps", (uint64_t) eps);
+            size_t nn = (size_t) cfg.range(scale_cheap_only ? 90000 : 110000, scale_cheap_only ? 150000 : 320000);
+            bool grow = cfg.coin();
+            uint64_t gap0 = (uint64_t(1) << cfg.range(26, 33)) + cfg.range(0, uint64_t(1) << 20);
+            p.set("recipe", "convex " + std::to_string(nn) + " " + std::to_string(work.next() >> 1) + " " + std::to_string(gap0) + " " + std::to_string(cfg.chance(700) ? 1 : cfg.range(1, 4)) + " " + (grow ? "1" : "0"));
+            p.set("recipe_start", cfg.coin() ? cfg.range(0, 100000) : (uint64_t(1) << cfg.range(30, 60)) + cfg.range(0, 100000));
+            p.set("procs", 1); p.set("maxthreads", 1); p.set("mode", cfg.coin() ? "par" : "seq");
+            p.set("scale", 1);
+            sig = "scale-convex+";
+        } else
+        sig = gen_keys_into<K>(p, n, std::max<size_t>(eps, 1), chunks_for(e, n), cfg, work);
         if constexpr (std::is_floating_point_v<K>) {
             // wide magnitudes (builder only): a few keys close to the ends of the finite range next to ordinary data, so that
             // key differences times rank differences need the range of the builder's long double arithmetic
